@@ -248,7 +248,7 @@ func (o *Obl) solve(dir string, timeoutSec int, seed int) *SolveResult {
 	safe := strings.NewReplacer("/", "_", "#", "-", "*", "", "(", "", ")", "", "$", "_", "@", "_").Replace(o.Name)
 	res := &SolveResult{Outputs: map[string]string{}}
 	if o.Expect == "sat" {
-		st, solver, ms, outs, _ := runQuery(dir, safe, vc.script(o, nil, o.Goal, false), min(timeoutSec, 10), seed)
+		st, solver, ms, outs, _ := runQuery(dir, safe, vc.script(o, nil, o.Goal, false), min(timeoutSec, 4), seed)
 		res.Ms, res.Solver, res.Outputs, res.Queries = ms, solver, outs, 1
 		res.File = filepath.Join(dir, safe+".smt2")
 		// for a cover query "refuted" (sat) is the good outcome
